@@ -1,0 +1,25 @@
+// SPDX-FileCopyrightText: 2026 The Pion community <https://pion.ly>
+// SPDX-License-Identifier: MIT
+
+//go:build !verif
+
+package dtlshandshake
+
+import (
+	dtlsflight "github.com/pion/dtls/v3/internal/flight"
+)
+
+type verifFlightInfo struct {
+	IsClient bool
+	Is13     bool
+	Flight   string
+	State    any
+	Cache    *dtlsflight.Cache
+}
+
+// VerifFlightInfo is unused without the verif build tag.
+type VerifFlightInfo = verifFlightInfo
+
+func verifRewriteFlight(_ VerifFlightInfo, pkts []*dtlsflight.Packet) []*dtlsflight.Packet {
+	return pkts
+}
